@@ -5,10 +5,12 @@ package worker
 
 import (
 	"bufio"
+	"encoding/binary"
 	"encoding/json"
 	"fmt"
 	"os"
 	"strconv"
+	"strings"
 	"testing"
 	"time"
 
@@ -22,13 +24,76 @@ import (
 	_ "verifsim/props/c16"
 )
 
+type agg struct {
+	Evals     int64            `json:"evals"`
+	Steps     int64            `json:"steps"`
+	Switches  int64            `json:"switches"`
+	Contended int64            `json:"contended"`
+	FakeNs    int64            `json:"fake_ns"`
+	Tasks     int64            `json:"tasks"`
+	Inconcl   int64            `json:"inconclusive"`
+	Leaked    int64            `json:"leaked"`
+	Outcomes  map[string]int64 `json:"outcomes"`
+	Counters  map[string]int64 `json:"counters"`
+	InconclEx []string         `json:"inconclusive_examples,omitempty"`
+}
+
 type line struct {
-	Kind    string          `json:"kind"` // case | violation | minimised | replay | done
+	Kind    string          `json:"kind"` // case | violation | known-candidate | agg | minimised | replay | done
 	Seed    int64           `json:"seed"`
 	Res     *harness.Result `json:"res,omitempty"`
 	Case    *harness.Case   `json:"case,omitempty"`
+	Agg     *agg            `json:"agg,omitempty"`
 	Runs    int             `json:"runs,omitempty"`
 	Elapsed float64         `json:"elapsed_s,omitempty"`
+}
+
+func (a *agg) add(r *harness.Result) {
+	a.Evals++
+	a.Steps += int64(r.Steps)
+	a.Switches += int64(r.Switches)
+	a.Contended += int64(r.Contended)
+	a.FakeNs += r.FakeNs
+	a.Tasks += int64(r.Tasks)
+	a.Outcomes[r.Outcome]++
+	for k, v := range r.Counters {
+		if strings.HasSuffix(k, "_max") {
+			if int64(v) > a.Counters[k] {
+				a.Counters[k] = int64(v)
+			}
+			continue
+		}
+		a.Counters[k] += int64(v)
+	}
+	if r.Inconclusive != "" {
+		a.Inconcl++
+		if len(a.InconclEx) < 3 {
+			a.InconclEx = append(a.InconclEx, r.Inconclusive)
+		}
+	}
+	if r.Leaked {
+		a.Leaked++
+	}
+}
+
+func hashOf(s string) uint64 {
+	if n, err := strconv.ParseUint(s, 16, 64); err == nil {
+		return n
+	}
+	h := uint64(1469598103934665603)
+	for i := 0; i < len(s); i++ {
+		h ^= uint64(s[i])
+		h *= 1099511628211
+	}
+	return h
+}
+
+func writeHashes(path string, set map[uint64]struct{}) {
+	buf := make([]byte, 0, 8*len(set))
+	for h := range set {
+		buf = binary.LittleEndian.AppendUint64(buf, h)
+	}
+	os.WriteFile(path, buf, 0o644)
 }
 
 func envInt(k string, def int64) int64 {
@@ -95,6 +160,10 @@ func TestWorker(t *testing.T) {
 		nviol := int64(0)
 		nknown := 0
 		n := 0
+		emitCases := os.Getenv("VERIF_EMIT_CASES") != ""
+		ag := &agg{Outcomes: map[string]int64{}, Counters: map[string]int64{}}
+		shapes := map[uint64]struct{}{}
+		traces := map[uint64]struct{}{}
 		for i := offset; i < count; i += stride {
 			if deadline > 0 && n%16 == 0 && time.Now().Unix() >= deadline {
 				break
@@ -130,13 +199,25 @@ func TestWorker(t *testing.T) {
 				l.Case = c
 				samples--
 			}
-			emit(l)
+			ag.add(l.Res)
+			if l.Res.Nontrivial {
+				shapes[hashOf(l.Res.Shape)] = struct{}{}
+			}
+			traces[hashOf(l.Res.LogHash)] = struct{}{}
+			if emitCases || l.Kind != "case" || l.Case != nil {
+				emit(l)
+			}
 			if nviol > 0 {
 				bw.Flush()
 			}
 			if nviol >= maxViol {
 				break
 			}
+		}
+		emit(line{Kind: "agg", Agg: ag})
+		if outPath != "" {
+			writeHashes(outPath+".shapes", shapes)
+			writeHashes(outPath+".traces", traces)
 		}
 		emit(line{Kind: "done", Runs: n, Elapsed: time.Since(start).Seconds()})
 
